@@ -142,11 +142,14 @@ def copy_specs(dst):
 
 
 def run_model(module, cfg=None, workers=None, env=None, timeout=3600, extra=None, keep=False,
-              cfg_text=None, heap='8g', simulate=None):
+              cfg_text=None, heap='8g', simulate=None, extra_files=None):
     """Run a model-checking instance.  Returns dict(rc, out, generated, distinct, ok, violated)."""
     wd = workdir(module)
     try:
         copy_specs(wd)
+        for name, text in (extra_files or {}).items():
+            with open(os.path.join(wd, name), 'w') as f:
+                f.write(text)
         if cfg_text is not None:
             cfg = module + '_gen.cfg'
             with open(os.path.join(wd, cfg), 'w') as f:
